@@ -441,9 +441,9 @@ def mk_merge(ctx):
     ctx.check(not errs, 'merge', body, 'every node of other.dag and other.orphans re-applied', errs[0] if errs else '')
 
 
-@rule('MK-READ', {
+@rule('MK-READ', floor=1, **read_attribution({
     'C15': 'read() returns exactly the visible nodes that no visible node lists as a child (the roots, looked up in dag)',
-}, floor=1)
+}, module='merkle_reg'))
 def mk_read(ctx):
     """MerkleReg::read = every root hash looked up in dag."""
     facts = ctx.facts
